@@ -189,14 +189,19 @@ def run_ensembles(ctx, count, np_, steps):
 
 def oracle_dyn(ctx, c, r):
     """`rfm->apply(); rfm->applyToAll(ps)` with a DynamicRFKickMap whose offsets change every step, then the drift: the
-    centre of charge of the blob that started on particle 0 is particle 0 after every map (linear RF kick and linear drift
-    are affine, interpolation with >= 3 points reproduces first moments), while the blob is >= 8 cells from the border;
-    every particle stays inside."""
+    centre of charge of the blob put on particle 0 (renewed every c.renew steps) is particle 0 after every map (linear RF kick
+    and linear drift are affine, interpolation with >= 3 points reproduces first moments) as long as the blob's support - at most
+    two cells wider per map on either side of the particle - is inside the grid; every particle stays inside."""
     n = c.n
     evaluated = 0
     alive = True
     maps = 0
     for k in range(c.steps):
+        if c.renew > 0 and k > 0 and k % c.renew == 0:
+            alive, maps = True, 0          # the harness has put a fresh blob on particle 0
+            px, py = r["pre"][k][0]
+            if isinstance(px, str) or isinstance(py, str) or not (4 <= px <= n - 5 and 4 <= py <= n - 5):
+                alive = False
         for stage, posl, moml in (("rf", r["rfpos"][k], r["rfmom"][k]), ("drift", r["pos"][k], r["mom"][k])):
             maps += 1
             for pi, (x, y) in enumerate(posl):
@@ -206,7 +211,8 @@ def oracle_dyn(ctx, c, r):
                                   sig=dict(kind="dyn", clause="inside"))
                     return False
             px, py = posl[0]
-            if not (8 <= px <= n - 9 and 8 <= py <= n - 9):
+            margin = 4 + 2 * ((maps + 1) // 2)   # support: the hat's two cells + two cells per map along that map's axis (one kick and one drift per step), and slack
+            if not (margin <= px <= n - 1 - margin and margin <= py <= n - 1 - margin):
                 alive = False
             if not alive:
                 continue
